@@ -72,6 +72,9 @@ def chunks(tier, seed):
     for k in range(16):
         out.append({"kind": "rand", "n": nrand // 16, "maxdepth": maxd, "key": "rand%d" % k})
     out.append({"kind": "shared_obs", "key": "shared_obs"})
+    # larger scale: hundreds / thousands of observations, dozens of features, expressions of more than 100 operations
+    for k in range(4 if tier == "quick" else 8):
+        out.append({"kind": "scale", "key": "scale%d" % k, "part": k, "of": 4 if tier == "quick" else 8})
     return out
 
 
@@ -136,6 +139,14 @@ def cases(chunk):
                     for how in ("create_list", "set_list", "expr"):
                         yield {"kind": "shared_obs", "size": n, "upto": k, "first": first, "how": how}
         return
+    if chunk["kind"] == "scale":
+        grid = [(n, F, style) for n in ((4, 60, 400) if chunk["tier"] == "quick" else (4, 60, 400, 1500, 4000))
+                for F in ((8, 45, 75, 130) if chunk["tier"] == "quick" else (8, 45, 75, 101, 130, 260))
+                for style in (0, 1, 2)]
+        for i, (n, F, style) in enumerate(grid):
+            if i % chunk["of"] == chunk["part"] and n * F <= 300000:
+                yield {"kind": "scale", "size": n, "nfeat": F, "style": style}
+        return
     if chunk["kind"] == "exh":
         idx = 0
         for d in range(1, chunk["depth"] + 1):
@@ -143,11 +154,20 @@ def cases(chunk):
                 idx += 1
                 if idx % chunk["of"] != chunk["shard"]:
                     continue
-                yield {"size": 1 + (idx % 3) + (1 if idx % 7 == 0 else 0), "hist": [list(REDUCED[i]) for i in hist]}
+                c = {"size": 1 + (idx % 3) + (1 if idx % 7 == 0 else 0), "hist": [list(REDUCED[i]) for i in hist]}
+                if idx % 4 == 1:
+                    c["names"] = 1 + (idx // 4) % (len(NAME_TRIPLES) - 1)
+                yield c
     else:
         for _ in range(chunk["n"]):
             d = rng.randrange(4, chunk["maxdepth"] + 1)
-            yield {"size": rng.choice([1, 2, 2, 3, 3, 4]), "rand": rng.randrange(10 ** 12), "depth": d}
+            c = {"size": rng.choice([1, 2, 2, 3, 3, 4]), "rand": rng.randrange(10 ** 12), "depth": d}
+            if _ % 3 == 1:
+                c["names"] = rng.randrange(1, len(NAME_TRIPLES))
+            if _ % 400 == 7:
+                # many calls on one track in one process
+                c["depth"] = 400
+            yield c
 
 
 # every void operator of tracklib.core.operators.Operator that takes feature names (and at most a number): driven
@@ -289,21 +309,101 @@ def _seq_veq(A, B):
     return len(A) == len(B) and all(_veq(x, y) for x, y in zip(A, B))
 
 
+
+# less usual but legal feature names (the documentation of operate() itself uses "P=X+Y"): upper-case spellings of the
+# virtual names, names with digits / underscores / upper case, one-character names, names that are prefixes or
+# suffixes of one another, of a virtual name ("idx", "timestamp", "uid") or of a GPX tag.  The history is generated and
+# modelled over the logical names a, b, c; a NameProxy renders them at the library boundary.
+NAME_TRIPLES = [("a", "b", "c"), ("X", "Y", "Z"), ("T", "Idx", "P"), ("a1", "A", "a_b"), ("ab", "abc", "b"),
+                ("speed", "s", "sp"), ("id", "u", "d"), ("ele", "time", "elevation"), ("Timestamp", "ti", "IDX"),
+                ("v2", "V", "vv")]
+
+
+class NameProxy:
+    """Forwards to a Track, spelling the logical names a/b/c as the case's real names in every argument (names,
+    (name, i) keys, expression texts) and spelling listed names back."""
+
+    def __init__(self, tr, nm):
+        import re
+        object.__setattr__(self, "_tr", tr)
+        object.__setattr__(self, "_nm", dict(nm))
+        object.__setattr__(self, "_inv", {v: k for k, v in nm.items()})
+        object.__setattr__(self, "_re", re.compile(r"\b([abc])\b"))
+
+    def _n(self, x):
+        if isinstance(x, str):
+            if x in self._nm:
+                return self._nm[x]
+            return self._re.sub(lambda m: self._nm[m.group(1)], x)
+        return x
+
+    def _key(self, key):
+        if isinstance(key, tuple):
+            return tuple(self._n(k) for k in key)
+        return self._n(key)
+
+    def __getattr__(self, name):
+        return getattr(self._tr, name)
+
+    def createAnalyticalFeature(self, name, *a):
+        return self._tr.createAnalyticalFeature(self._n(name), *a)
+
+    def removeAnalyticalFeature(self, name):
+        return self._tr.removeAnalyticalFeature(self._n(name))
+
+    def updateAnalyticalFeature(self, name, *a):
+        return self._tr.updateAnalyticalFeature(self._n(name), *a)
+
+    def addAnalyticalFeature(self, f, name=None):
+        return self._tr.addAnalyticalFeature(f, self._n(name))
+
+    def getAnalyticalFeature(self, name):
+        return self._tr.getAnalyticalFeature(self._n(name))
+
+    def getListAnalyticalFeatures(self):
+        return [self._inv.get(x, x) for x in self._tr.getListAnalyticalFeatures()]
+
+    def operate(self, op, *a):
+        if isinstance(op, str):
+            return self._tr.operate(self._n(op), *a)
+        return self._tr.operate(op, *[self._n(x) for x in a])
+
+    def __getitem__(self, key):
+        return self._tr[self._key(key)]
+
+    def __setitem__(self, key, v):
+        self._tr[self._key(key)] = v
+
+    def extractSpanTime(self, *a):
+        r = self._tr.extractSpanTime(*a)
+        return NameProxy(r, self._nm) if r is not None else r
+
+    def size(self):
+        return self._tr.size()
+
+    def getObsList(self):
+        return self._tr.getObsList()
+
+
 # --------------------------------------------------------------------------
 class Runner:
-    def __init__(self, size, ctx):
+    def __init__(self, size, ctx, names=0):
         from tracklib.core.operators import Operator
         self.Operator = Operator
         self.ctx = ctx
         self.n = size
         self.tr = gen.make_track([(10.0 * i + 1, -3.0 * i - 2, 0.5 * i + 7) for i in range(size)],
                                  t0_ms=gen.ms_from_fields(1970, 1, 2, 3, 4, 5), step_ms=1500)
+        self.flags = set()
+        if names:
+            self.tr = NameProxy(self.tr, dict(zip("abc", NAME_TRIPLES[names % len(NAME_TRIPLES)])))
+            self.flags.add("less_usual_feature_names")
+            self.flags.add("names:" + "/".join(NAME_TRIPLES[names % len(NAME_TRIPLES)]))
         self.model = {}
         self.coords = {"x": list(self.tr.getX()), "y": list(self.tr.getY()), "z": list(self.tr.getZ())}
         self.T = [gen.obstime_fields(t) for t in self.tr.getTimestamps()]
         self.counter = 0
         self.applied = []
-        self.flags = set()
         self.deleted_nonlast = set()   # names that survived a non-last deletion
         self.deleted_names = set()
         self.siblings = []             # [track, model, exact] of tracks derived from this one (separate lives)
@@ -809,11 +909,140 @@ def run_shared_obs(case, ctx):
     return held(sig, True, cls)
 
 
+def run_scale(case, ctx):
+    """Dozens of features on tracks of up to thousands of observations; one expression naming every feature (more than
+    100 operations for the larger cases), with and without '='; deletions; a second long expression.  After each step:
+    exactly the features written are listed, every observation carries one value per listed feature, every name reads
+    back what was last written under it, no temporary is listed, coordinates and timestamps are untouched."""
+    n, F, style = case["size"], case["nfeat"], case["style"]
+    tr = gen.make_track([(10.0 * i + 1, -3.0 * i - 2, 0.5 * i + 7) for i in range(n)],
+                        t0_ms=gen.ms_from_fields(2024, 3, 4, 5, 6, 7), step_ms=1000)
+    X, Y, Z = list(tr.getX()), list(tr.getY()), list(tr.getZ())
+    T = [gen.obstime_fields(t) for t in tr.getTimestamps()]
+    fmt = ["f%d", "F%d", "af_%d"][style]
+    names = [fmt % j for j in range(F)]
+    model = {}
+    sig = ("scale", n, F, style)
+    cls = ["scale", "size:%d" % n if n < 100 else "size:100+", "features:%d" % F]
+
+    def check(label):
+        ctx.monitor("scale.table_consistent")
+        listed = M.call(tr.getListAnalyticalFeatures)
+        if M.is_raised(listed):
+            return {"what": "getListAnalyticalFeatures raised", "raised": listed, "after": label}
+        extra = [x for x in listed if x not in model]
+        if extra:
+            return {"what": "names nobody wrote remain listed (evaluator temporaries?)", "extra": extra[:8],
+                    "n_extra": len(extra), "after": label}
+        if sorted(listed) != sorted(model):
+            return {"what": "listed features differ from the features written", "after": label,
+                    "missing": [x for x in model if x not in listed][:8]}
+        for i, o in enumerate(tr.getObsList()):
+            if len(o.features) != len(listed):
+                return {"what": "an observation does not carry exactly one value per listed feature", "obs": i,
+                        "n_values": len(o.features), "n_listed": len(listed), "after": label}
+        for name, exp in model.items():
+            got = M.call(tr.getAnalyticalFeature, name)
+            if M.is_raised(got) or not M.seq_eq(list(got), exp):
+                bad = None
+                if not M.is_raised(got) and len(got) == len(exp):
+                    bad = next((i for i in range(len(exp)) if not M.feq(got[i], exp[i])), None)
+                return {"what": "reading a feature does not return the values last written under that name",
+                        "name": name, "after": label, "first_bad_index": bad,
+                        "got": None if bad is None else got[bad], "expected": None if bad is None else exp[bad]}
+        if not (M.seq_eq(list(tr.getX()), X) and M.seq_eq(list(tr.getY()), Y) and M.seq_eq(list(tr.getZ()), Z)):
+            return {"what": "a coordinate changed as a side effect", "after": label}
+        if [gen.obstime_fields(t) for t in tr.getTimestamps()] != T:
+            return {"what": "timestamps changed as a side effect", "after": label}
+        return None
+
+    def expression(over):
+        terms, total = [], None
+        for j, nm in enumerate(over):
+            v = model[nm]
+            if j % 3 == 0:
+                terms.append(nm)
+                term = list(v)
+            elif j % 3 == 1:
+                terms.append("%s*2" % nm)
+                term = [a * 2 for a in v]
+            else:
+                w = model[over[j - 1]]
+                terms.append("(%s-%s)" % (nm, over[j - 1]))
+                term = [a - b for a, b in zip(v, w)]
+            total = term if total is None else [a + b for a, b in zip(total, term)]
+        e = "+".join(terms)
+        return e, total, sum(e.count(c) for c in "+*-")
+
+    def fail(p):
+        p["case"] = case
+        return violated(p, sig, True, cls)
+
+    for j, nm in enumerate(names):
+        vals = [float((3 * j + 5 * i) % 17) + 0.25 * (j % 4) for i in range(n)]
+        if j % 2:
+            r = M.call(tr.createAnalyticalFeature, nm, list(vals))
+        else:
+            def _s(nm=nm, vals=vals):
+                tr[nm] = list(vals)
+            r = M.call(_s)
+        if M.is_raised(r):
+            return fail({"what": "creating a feature raised", "name": nm, "raised": r})
+        model[nm] = vals
+    p = check("creation of %d features" % F)
+    if p:
+        return fail(p)
+    e, total, nops = expression(names)
+    if nops > 100:
+        cls.append("expression_of_more_than_100_operations")
+        ctx.count("expression_of_more_than_100_operations")
+    r = M.call(tr.operate, e)
+    if M.is_raised(r) or not M.seq_eq(list(r), total):
+        return fail({"what": "a long expression without '=' raised or returned other values than the model",
+                     "n_operations": nops, "got": r if M.is_raised(r) else "(values differ)"})
+    p = check("an expression of %d operations without '='" % nops)
+    if p:
+        return fail(p)
+    r = M.call(tr.operate, "total=" + e)
+    if M.is_raised(r):
+        return fail({"what": "a long expression with '=' raised", "n_operations": nops + 1, "raised": r})
+    model["total"] = total
+    p = check("an expression of %d operations with '='" % (nops + 1))
+    if p:
+        return fail(p)
+    for j, nm in enumerate(names):
+        if j % 3 == 1:
+            if j % 2:
+                r = M.call(tr.removeAnalyticalFeature, nm)
+            else:
+                def _d(nm=nm):
+                    tr[nm] = "#DELETE"
+                r = M.call(_d)
+            if M.is_raised(r):
+                return fail({"what": "deleting a feature raised", "name": nm, "raised": r})
+            del model[nm]
+    p = check("deleting every third feature")
+    if p:
+        return fail(p)
+    rest = [nm for nm in names if nm in model]
+    e, total, nops = expression(rest)
+    r = M.call(tr.operate, "total=" + e)
+    if M.is_raised(r):
+        return fail({"what": "a long expression with '=' raised after deletions", "n_operations": nops + 1, "raised": r})
+    model["total"] = total
+    p = check("an expression of %d operations over the remaining features" % (nops + 1))
+    if p:
+        return fail(p)
+    return held(sig, True, cls)
+
+
 def run_case(case, ctx):
     import random
     if case.get("kind") == "shared_obs":
         return run_shared_obs(case, ctx)
-    R = Runner(case["size"], ctx)
+    if case.get("kind") == "scale":
+        return run_scale(case, ctx)
+    R = Runner(case["size"], ctx, case.get("names", 0))
     if "hist" in case:
         ops = [tuple(o) for o in case["hist"]]
     else:
@@ -860,8 +1089,10 @@ def classify(case, witness):
 # floors for the call-history workloads added in session 3 (a run in which they were silently skipped is inconclusive)
 _floors_base = floors
 _FLOORS_EXTRA = {'monitors': {'decoy.unchanged': 50000, 'failed_expression.state_consistent': 500,
-                              'anyop.returned_list_is_what_is_read': 3000},
-                 'classes': {'shift_by_whole_turns': 500, 'expression_through_item_access': 2000, 'sibling_track': 1000}}
+                              'anyop.returned_list_is_what_is_read': 3000,
+                              'scale.table_consistent': 100},
+                 'classes': {'shift_by_whole_turns': 500, 'expression_through_item_access': 2000, 'sibling_track': 1000,
+                             'less_usual_feature_names': 5000, 'expression_of_more_than_100_operations': 6}}
 
 
 def floors(tier):
